@@ -469,8 +469,18 @@ def random_unicode(rng, n=None):
     return "".join(rng.choice(alpha) for _ in range(n))
 
 
+ODD_CHARS = ["\ufeff", "\u00a0", "\u200b", "\u2028", "\u000c", "\u0085", "\u3000", "\u00ad"]
+
+
 def any_document(rng):
-    """one document of the mixed stream: valid / damaged / soup / unicode; returns (kind, text)"""
+    """one document of the mixed stream: valid / damaged / soup / unicode / the same with a byte order mark in front or a
+    white-space look-alike somewhere between two characters; returns (kind, text)"""
+    if rng.random() < 0.07:
+        k, t = any_document(rng)
+        if rng.random() < 0.6:
+            return "bom+" + k, "\ufeff" + t
+        i = rng.randrange(len(t) + 1)
+        return "oddchar+" + k, t[:i] + rng.choice(ODD_CHARS) + t[i:]
     r = rng.random()
     if r < 0.35:
         prog, _ = well_typed_program(rng)
